@@ -287,6 +287,20 @@ m("neutral-event-lists-as-tuples", "chartparse/instrument.py",
   "            note_events=tuple(note_events),\n            star_power_events=tuple(star_power_events),\n            track_events=tuple(track_events),", [],
   ["C02", "C03", "C05", "C16", "C19", "C17", "C13"])
 
+# ---- round-11 neutral refactors of the INFRASTRUCTURE (dataclass options, dunder methods, compile flags)
+m("neutral-event-ordering-by-tick", "chartparse/event.py",
+  "@dataclasses.dataclass(kw_only=True, frozen=True)\nclass Event(DictPropertiesEqMixin, DictReprMixin):",
+  "@dataclasses.dataclass(kw_only=True, frozen=True)\nclass Event(DictPropertiesEqMixin, DictReprMixin):\n    def __lt__(self, other: object) -> bool:\n        if not isinstance(other, Event):\n            return NotImplemented\n        return self.tick < other.tick\n",
+  [], ["C19", "C02", "C09", "C17"])
+m("neutral-track-explicit-field-eq", "chartparse/instrument.py",
+  "@dataclasses.dataclass(frozen=True, kw_only=True)\nclass InstrumentTrack(DictPropertiesEqMixin, DictReprTruncatedSequencesMixin):",
+  "@dataclasses.dataclass(frozen=True, kw_only=True, eq=False)\nclass InstrumentTrack(DictPropertiesEqMixin, DictReprTruncatedSequencesMixin):\n    def __eq__(self, other: object) -> bool:\n        if other.__class__ is not self.__class__:\n            return NotImplemented\n        return all(getattr(self, f.name) == getattr(other, f.name) for f in dataclasses.fields(self))\n\n    __hash__ = None  # type: ignore[assignment]\n",
+  [], ["C19", "C06", "C17", "C13"])
+m("neutral-note-recogniser-ascii-flag", "chartparse/instrument.py",
+  "        _regex_prog: typ.Final[typ.Pattern[str]] = re.compile(_regex)\n\n        _unhandled_note_track_index_log_msg_tmpl",
+  "        _regex_prog: typ.Final[typ.Pattern[str]] = re.compile(_regex, re.ASCII)\n\n        _unhandled_note_track_index_log_msg_tmpl",
+  [], ["C07", "C14", "C02"])
+
 
 def run(cmd, env=None, cwd=None, timeout=3600):
     return subprocess.run(cmd, env=env, cwd=cwd, capture_output=True, text=True, timeout=timeout)
